@@ -282,11 +282,11 @@ func evalOutput(c seamCase, s []byte) []viol {
 			outO = append(outO, l)
 		}
 	}
-	// (evaluated only when the messages of that stream were right: otherwise it is the same failure seen twice)
-	if cl := classify(outO, nonEmptyLines(string(so)), len(so) > 0 && so[len(so)-1] != '\n'); cl != "" && okO {
+	// (evaluated only when the messages of both streams were right: otherwise it is the same failure seen twice, and pieces of a broken line cannot be attributed to a stream)
+	if cl := classify(outO, nonEmptyLines(string(so)), len(so) > 0 && so[len(so)-1] != '\n'); cl != "" && okO && okE {
 		add("stdout", "output-string:"+cl, nonEmptyLines(string(so)), outO)
 	}
-	if cl := classify(outE, nonEmptyLines(string(se)), len(se) > 0 && se[len(se)-1] != '\n'); cl != "" && okE {
+	if cl := classify(outE, nonEmptyLines(string(se)), len(se) > 0 && se[len(se)-1] != '\n'); cl != "" && okO && okE {
 		add("stderr", "output-string:"+cl, nonEmptyLines(string(se)), outE)
 	}
 	return vs
